@@ -37,6 +37,29 @@ CONFIG = {
             "the redacted event, the event's timestamp, one request) and the mock membership querier only for (request room, target user); "
             "compared: error class "
             "(Matrix code / internal / other) or response, signer, real ed25519 verification of the returned event's local signature, event unmodified. "
+            "ROUND 5 (second audit, defects H1-H6): the user-ID querier answers (nil, nil) in sendjoin / invite / sendjoin_pseudo (a fixed prologue per "
+            "room version plus ~2% of the random ops); the membership querier answers PER SENDER ID — the scripted membership is that of the event's "
+            "target (state key), everybody else is not joined — with invites whose state key is another local user than the invited user the handler is "
+            "given (joined / not joined) and input.InvitedSenderID = the invited user's ID / empty / the state key; HandleInviteV3 with "
+            "input.InvitedSenderID = the ID GetOrCreateSenderID returns / empty / somebody else's; the template builder's proto event is compared with "
+            "the proto event the make_join / make_leave handler returns; handshake.performjoin_adopt: every room version x 14 classes of the resident "
+            "server's copy of the join event (none, unparseable, the event sent as it is / with the resident server's signature / with an unsigned "
+            "section / WITHOUT our signature / redacted, an earlier join signed by us, an x.custom event that cites our join as the sender's membership, "
+            "member joins with content / auth events / sender / membership of the resident server's choosing, with and without a stale copy of our "
+            "signature) x our join listed in the presented state or not, with a key of its own for the joining server — measured on the returned "
+            "event: is it an m.room.member join of the joiner, does OUR signature verify on it; handshake.performjoin (old op): remote copies that are "
+            "not member events, that are sent by somebody else, that our server did not validly sign; handshake.performjoin_bodies: PerformJoin on "
+            "make_join / send_join BODIES decoded like the federation client does — 25 edits of the template (content null / string / array / number / "
+            "absent, prev_events [[]] / [\"\"] / null / object, auth_events [[5,{}]] / numbers / null, event missing / null / array, ill-typed state key / "
+            "depth, other type / sender / room, redacts, unsigned null, signatures 5) x room_version present / missing / empty / unknown / ill-typed, "
+            "26 edits of the send_join body (event null / {} / [] / string / number / ill-typed / content null / x.custom, state and auth_chain null / "
+            "missing / with null, number, string, {} and [] entries, create event with content null / numeric version) for room versions 1, 2, 3, 10, 12 "
+            "and org.matrix.msc4014 (all 16 in the thorough tier); handshake.performjoin_pseudo: PerformJoin for org.matrix.msc4014 with real room keys "
+            "and per-server keys — 11 classes of membership event in the response (mapping of ANOTHER key signed validly, with the event signed by the "
+            "other key or by the sender's; mapping unsigned / signed by another server / with a bad signature / with an extra bad signature; valid "
+            "mapping in an event signed by another key; genuine joins; membership events without mapping) in state and auth chain, join rule public / "
+            "invite, each stage failing, the k-th store call failing, a forged copy of the join as remote event; compared: the outcome AND the trace of "
+            "StoreSenderIDFromPublicID calls (arguments, order) with a marker where the auth checks of CheckSendJoinResponse begin. "
             "spec stream = the guard predicate of VModel.HandshakeSpec (a refusal is demanded where it is false; where send_join is accepted the "
             "specification demands sig=1 — the entry under (local server, key ID) VERIFIES with the real local key — and unmod=1, built from the "
             "property text, not from the model's answer). non-trivial = every op (each is a distinct "
@@ -49,7 +72,10 @@ CONFIG = {
         "VModel.Signers.verifyPseudo (C06) as the model of VerifyEventSignatures under JSONVerifierSelf in the PerformInvite ops"],
     "assumptions": [
         "caller contract: queriers, verifier, context non-nil; HandleMakeJoinInput.RoomVersion is known to this server (MustGetRoomVersion panics otherwise)",
-        "the pseudo-ID room version org.matrix.msc4014 is not modelled for PerformJoin (GetOrCreateSenderID, mxid_mapping signing, storeMXIDMappings) and is not generated for HandleInvite (pseudo-ID invites arrive through HandleInviteV3, which is run with it); HandleSendJoin's pseudo-ID path is modelled (handshake.sendjoin_pseudo)",
+        "PerformJoin for org.matrix.msc4014 is modelled as far as the property reaches (VModel.HandshakeInvite.performJoinPseudo: stages, the storeMXIDMappings loop with its arguments and order, its place before CheckSendJoinResponse); CheckSendJoinResponse itself is an oracle bit there (C14 does not cover the pseudo-ID version: signatures are checked by JSONVerifierSelf) which the driver sets from the join rule of the generated room; the pseudo-ID version is not generated for HandleInvite (pseudo-ID invites arrive through HandleInviteV3, which is run with it); HandleSendJoin's pseudo-ID path is modelled (handshake.sendjoin_pseudo)",
+        "KNOWN RESIDUE (H1b in org.matrix.msc4014): PerformJoin takes the resident server's copy of the join event without verifying the room-key signature (isSignedJoinEvent lets the pseudo-ID version through: the repository's TestPerformJoinPseudoID answers send_join with a join signed by another key and expects it back); in user-ID room versions a copy is taken iff VerifyEventSignatures accepts it, which admits an EARLIER join of the same user and room that this server signed (replay; closing that needs event-ID equality, which TestPerformJoin/successful_join contradicts)",
+        "caller contract of HandleMakeJoin / HandleMakeLeave: input.SenderID and input.UserID name the same user (no querier in the input relates them; reason in VModel/HandshakeSpec.lean)",
+        "already joined (invite) := the room is known to this server AND the target's membership there is join (decision H7, argued at Spec.inviteTargetJoined)",
         "PerformInvite: the invite template comes from the local caller (that it is an m.room.member invite is the caller's contract); VerifyEventSignatures under JSONVerifierSelf, EventBuilder.Build and Allowed are oracles (C06 / C03 / C07), the first instantiated by VModel.Signers.verifyPseudo in the driver; in user-ID rooms the answer of SendInvite is handed back unchecked (stated, not demanded)",
         "PerformInvite caller contract for the no-panic theorem: non-nil queriers, context, StoreSenderIDFromPublicID and federation client, a 64-byte signing key, no nil PDU from the EventQuerier, a well-formed key from the SenderIDCreator",
         "RestrictedRoomJoinInfo.JoinedUsers lists users of THIS server (querier contract): 'local user entitled to invite' is stated as membership of that list + entitlement"],
